@@ -11,7 +11,7 @@ import z3
 
 from . import seqops
 from .core import PyRaise
-from .values import (BoundMethod, Closure, DictCell, EnumerateV, ExcV, MapCell, MapElem, ObjCell, RegionListCell, SymKey, OldView, Opaque, RangeV,
+from .values import (BoundMethod, Closure, DictCell, ElemListCell, EnumerateV, ExcV, MapCell, MapElem, ObjCell, RegionListCell, SymKey, OldView, Opaque, RangeV,
                      Ref, SeqCell, SeqV, SuperV, Sym, Unsupported, fpval, is_scalar, kind_of, mk, to_term)
 
 _CMP = {ast.Eq: "==", ast.NotEq: "!=", ast.Lt: "<", ast.LtE: "<=", ast.Gt: ">", ast.GtE: ">="}
@@ -83,6 +83,8 @@ class ExprMixin:
                 return self.truthy(cell.seq)
             if isinstance(cell, DictCell):
                 return len(cell.d) != 0
+            if isinstance(cell, ElemListCell):
+                return self.truthy(cell.keys)
             if isinstance(cell, MapCell):
                 raise Unsupported("truthiness of symbolic map")
             if isinstance(cell, ObjCell):
@@ -695,6 +697,15 @@ class ExprMixin:
             return MapElem(base.ref, z3.simplify(self.map_key(cell, idx)), old=True)
         if isinstance(base, OldView) and isinstance(self.old_heap.get(base.ref.addr), RegionListCell):
             return MapElem(self.old_heap[base.ref.addr].region, z3.simplify(to_term(idx, "int")), old=True)
+        if isinstance(base, OldView) and isinstance(self.old_heap.get(base.ref.addr), ElemListCell):
+            ocell = self.old_heap[base.ref.addr]
+            k = seqops.get(self.path, ocell.keys, idx, unchecked=True)
+            return MapElem(ocell.region, z3.simplify(to_term(k, "int")), old=True)
+        if isinstance(base, Ref) and isinstance(self.path.cell(base), ElemListCell):
+            ecell = self.path.cell(base)
+            spec_ctx = getattr(self, "spec_depth", 0) > 0 or getattr(self, "pure_depth", 0) > 0
+            k = seqops.get(self.path, ecell.keys, idx, unchecked=spec_ctx)
+            return MapElem(ecell.region, z3.simplify(to_term(k, "int")))
         if isinstance(base, Ref):
             cell = self.path.cell(base)
             if isinstance(cell, RegionListCell):
